@@ -158,9 +158,21 @@ FieldOK(actual, d, field) ==
     ELSE IF d[field].kind = "and" THEN actual.t = "cls" /\ AndOK(actual.n, d[field].items)
     ELSE TermOK(actual, PyAnn(d[field]))
 
+\* the class generated for an `and` type images the merged property list like a structure does (C04)
+RECURSIVE Dedup(_, _)
+Dedup(ps, seen) == IF ps = <<>> THEN <<>>
+                   ELSE IF Head(ps).name \in seen THEN Dedup(Tail(ps), seen)
+                   ELSE <<Head(ps)>> \o Dedup(Tail(ps), seen \cup {Head(ps).name})
+AndClassFails(actual, d, field) ==
+    IF field \in DOMAIN d /\ d[field].kind = "and" /\ actual.t = "cls" /\ actual.n \in DOMAIN Cls
+    THEN LET ps == Dedup(AndProps(d[field].items), {}) IN
+         UNION {PropFails(actual.n, ps[i], actual.n) : i \in {i \in DOMAIN ps : Norm[ps[i].name] \in AttrKeys(actual.n)}}
+    ELSE {}
+
 MethodFails(m) ==
     IF m \notin DOMAIN Mt THEN {Fail("M_missing_method", m)}
     ELSE LET e == Mt[m]  d == MsgDef(m) IN
+         AndClassFails(e.params, d, "params") \cup AndClassFails(e.regopts, d, "registrationOptions") \cup
          (IF e.req \in DOMAIN Cls /\ e.default_method = m THEN {} ELSE {Fail("M_message_class", m)})
          \cup (IF m \in ReqM THEN (IF e.resp \in DOMAIN Cls THEN {} ELSE {Fail("M_response_class", m)})
                ELSE (IF e.resp = "" THEN {} ELSE {Fail("M_response_class", m)}))
